@@ -20,10 +20,13 @@ Qed.
 Theorem rng_nonpositive_seed_ignored : forall s rv, s <= 0 -> rstep rv (RSeed s) = rv.
 Proof. intros s rv H. simpl. unfold set_seed. assert (E : Z.ltb 0 s = false) by (apply Z.ltb_ge; exact H). rewrite E. reflexivity. Qed.
 
-(* the state stays within [0, congruent) after any draw, so the 32-bit wrap can only act on the first draw after a large seed *)
-Theorem draw_range : forall rv, 0 <= draw rv < congruent.
-Proof. intros rv. unfold draw. apply Z.mod_pos_bound. reflexivity. Qed.
-Theorem draw_no_wrap : forall rv, 0 <= rv < congruent -> draw rv = (factor * rv) mod congruent.
+(* the state stays within ]0, congruent[ after any draw, so the 32-bit wrap can only act on the first draw after a large seed *)
+Theorem draw_range : forall rv, 0 < draw rv < congruent.
+Proof.
+  intros rv. unfold draw, nz. pose proof (Z.mod_pos_bound ((factor * rv) mod 2 ^ 32) congruent eq_refl) as H.
+  destruct (Z.eqb_spec (((factor * rv) mod 2 ^ 32) mod congruent) 0) as [E|E]; unfold congruent in *; lia.
+Qed.
+Theorem draw_no_wrap : forall rv, 0 <= rv < congruent -> draw rv = nz ((factor * rv) mod congruent).
 Proof.
   intros rv H. unfold draw. rewrite (Z.mod_small (factor * rv) (2 ^ 32)); [reflexivity|].
   unfold factor, congruent in *. split; [lia|]. change (2 ^ 32) with 4294967296. lia.
